@@ -225,6 +225,7 @@ func init() {
 	initTimeModels()
 	initErrFmtModels()
 	initBytesModels()
+	initCryptoModels()
 }
 
 // snapshot deep-copies v through slices (for Observe at a point in time).
